@@ -8,8 +8,26 @@ register('C10', 'proof',
          assumptions=['the target tick counter advances while the target is RUNNING (else C07 invalidates it)',
                       'ints are mathematical; handlers are atomic (single Supervisor thread)'])
 register('C07', 'proof',
-         'Detection predicate is_inactive proved equal to the statement for all states and counters.',
-         assumptions=['the local TICK reaches on_tick (Supervisor event loop)'])
+         'Per-call contracts transcribed from the statement and proved for all inputs on the real source: the stamp of a '
+         'received tick (SupvisorsTimes.update: local counter at reception, 0 on a decreasing remote counter), the '
+         'detection predicate is_inactive, the accuracy and completeness lemmas over these two contracts, '
+         'Context.on_timer_event (FAILED on exactly the inactive instances, loop invariant), on_instance_failure, '
+         'Context.invalidate (local => STOPPED, fence or auto_fence with a working Master => ISOLATED, else STOPPED), the '
+         'state setter (raises unless the change is an edge of the documented graph), invalidate_failed (exactly the FAILED '
+         'instances are invalidated, what ran there becomes FATAL and is no longer listed there, other entries untouched). '
+         'Structural scans: single writer of _state, _Transitions = documented graph, whitelist of the functions assigning '
+         'each target state, ISOLATED only for a non-local instance, call chain on_tick -> on_timer_event -> fsm.next -> '
+         'invalidate_failed in every FSM state.',
+         not_decided=['message-delay / phase arguments beyond "a tick was received within the window" (the statement is '
+                      'phrased in received ticks)',
+                      'reachability through the proxy-thread race of the STOPPED status met by on_instance_failure '
+                      '(reproduced at function level after a real history, the interleaving itself is not modelled)'],
+         assumptions=['the local TICK reaches on_tick (Supervisor event loop) and XML-RPC failure notifications are '
+                      'delivered by the proxy thread',
+                      'structural validity of the per-instance maps (same domain, keyed by identifier, distinct objects): '
+                      'precondition valid_structure / distinct_entries of contracts/c07.py',
+                      'ints are mathematical; handlers are atomic (single Supervisor thread)'],
+         extra='pyvc.structural_c07')
 register('C11', 'proof',
          'Data-structure proof on the real source of ProcessStatus: the object invariant I11 (listed exactly where the last '
          'report is running-like or a lingering STOPPING, conflict flag iff two listed, displayed state = the synthesis of '
